@@ -383,8 +383,7 @@ func (g *gen) genField(fieldType types.Type, thisField, thatField string) error 
 		p.P("}")
 		return nil
 	case *types.Array:
-		g.genStatement(fieldType, thisField, thatField)
-		return nil
+		return g.genStatement(fieldType, thisField, thatField)
 	case *types.Slice:
 		p.P("if %s == nil {", thisField) // nil
 		p.In()
